@@ -97,6 +97,7 @@ extern "C" void h_inst_STEPread()
     }
     if (in_m < plain) __CPROVER_assert(s <= SEVERITY_WARNING, "C03 too few parameters (a plain attribute is left without a value, wherever redeclared attributes sit in the list) is an error");
     if (in_m > plain) __CPROVER_assert(s <= SEVERITY_WARNING, "C03 too many parameters is an error");
+    __CPROVER_assert(in._m_consumed == (unsigned long)(p - 1), "C03 (confinement) whatever was wrong with the parameters, reading stops in front of the instance's terminating semicolon, so that the next instance is read");
     if (in_m == plain) {
         Severity worst = SEVERITY_NULL; int jj = 0;
         for (int i = 0; i < NA; i++) if (i < in_n && kinds[i] == AttrType_Explicit) { if (sevs[i] < worst) worst = (Severity)sevs[i]; jj++; }
